@@ -40,14 +40,14 @@ theorem featuresSub_safeS (sub : Sub) : SafeS L (featuresSub sub) := by
   have := featuresField_safeS (L := L) r
   unfold featuresSub; wps_run
 
-theorem originSub_safeS (length : Int) (d : Nat) (h0 : 0 ≤ length) (hL : L < 10 ^ 9) (sub : Sub) :
+theorem originSub_safeS (length : Int) (d : Nat) (h0 : 0 ≤ length) (sub : Sub) :
     SafeS L (originSub length d sub) := by
   obtain ⟨f, t, o, r⟩ := sub
-  have := originField_safeS (L := L) length d h0 hL
+  have := originField_safeS (L := L) length d h0
   unfold originSub; wps_run
 
-theorem fieldParsers_safeS (length : Int) (d : Nat) (h0 : 0 ≤ length) (hd : 1 ≤ d)
-    (hL : L < 10 ^ 9) : ∀ p ∈ fieldParsers length d, ∀ sub, SafeS L (p sub) := by
+theorem fieldParsers_safeS (length : Int) (d : Nat) (h0 : 0 ≤ length) (hd : 1 ≤ d) :
+    ∀ p ∈ fieldParsers length d, ∀ sub, SafeS L (p sub) := by
   intro p hp
   simp only [fieldParsers, List.mem_cons, List.not_mem_nil, or_false] at hp
   rcases hp with rfl | rfl | rfl | rfl | rfl | rfl | rfl | rfl | rfl | rfl | rfl
@@ -61,7 +61,7 @@ theorem fieldParsers_safeS (length : Int) (d : Nat) (h0 : 0 ≤ length) (hd : 1 
   · exact liftF_safeS _ (commentField_safeS d)
   · exact featuresSub_safeS
   · exact liftF_safeS _ (contigField_safeS d)
-  · exact originSub_safeS length d h0 hL
+  · exact originSub_safeS length d h0
 
 /-- `tryAllParsers` over a list of sub-parsers each of which is safe -/
 theorem tryList_safeS : ∀ (ps : List (Sub → P (Sub × Bool))),
@@ -73,26 +73,25 @@ theorem tryList_safeS : ∀ (ps : List (Sub → P (Sub × Bool))),
     clear hps
     unfold tryList; wps_run
 
-theorem tryAll_safeS (length : Int) (d : Nat) (h0 : 0 ≤ length) (hd : 1 ≤ d) (hL : L < 10 ^ 9)
+theorem tryAll_safeS (length : Int) (d : Nat) (h0 : 0 ≤ length) (hd : 1 ≤ d)
     (sub : Sub) : SafeS L (tryAll length d sub) := by
-  have h1 := tryList_safeS (L := L) _ (fieldParsers_safeS length d h0 hd hL)
+  have h1 := tryList_safeS (L := L) _ (fieldParsers_safeS length d h0 hd)
   have h2 := extraField_safeS (L := L) d
   unfold tryAll; wps_run
 
-theorem recordLoop_safeS (length : Int) (d : Nat) (h0 : 0 ≤ length) (hd : 1 ≤ d) (hL : L < 10 ^ 9) :
+theorem recordLoop_safeS (length : Int) (d : Nat) (h0 : 0 ≤ length) (hd : 1 ≤ d) :
     ∀ k sub, SafeS L (recordLoop length d k sub)
   | 0, sub => by unfold recordLoop; wps_run
   | k + 1, sub => by
-    have ih := recordLoop_safeS length d h0 hd hL k
-    have h1 := tryAll_safeS (L := L) length d h0 hd hL
+    have ih := recordLoop_safeS length d h0 hd k
+    have h1 := tryAll_safeS (L := L) length d h0 hd
     have h2 := endMark_safe
     unfold recordLoop; wps_run
 
 
-/-- `GenBankParser` from any sorted state with fewer than 10^9 bytes left: no panic, the final
-state is sorted again and not before the entry position -/
-theorem genbankParser_wp (reg : Registry) (s : PS) (hs : Sorted s.rest.length s.stk)
-    (hlen : s.rest.length < 10 ^ 9) :
+/-- `GenBankParser` from any sorted state: no panic, the final state is sorted again and not
+before the entry position -/
+theorem genbankParser_wp (reg : Registry) (s : PS) (hs : Sorted s.rest.length s.stk) :
     WP (genbankParser reg) (fun r s' => r ≠ .error .panic ∧ Sorted s'.rest.length s'.stk ∧
       s'.rest.length ≤ s.rest.length) s := by
   have hsafe := locusParser_safe _ _ _ s (Fr.init hs)
@@ -113,18 +112,18 @@ theorem genbankParser_wp (reg : Registry) (s : PS) (hs : Sorted s.rest.length s.
     · repeat wps_step
     · rename_i hc
       have h0 : 0 ≤ l.length := by omega
-      have hrl := recordLoop_safeS (L := s.rest.length) l.length l.depth h0 (by omega) hlen
+      have hrl := recordLoop_safeS (L := s.rest.length) l.length l.depth h0 (by omega)
       repeat wps_step
 
 /-- the scan loop: every record is parsed from a fresh state on what the previous one left -/
 theorem parseAll_ne_none : ∀ k (reg : Registry) (input : Bytes) (acc : List Record),
-    input.length < 10 ^ 9 → parseAll reg k input acc ≠ none
-  | 0, _, _, _, _ => by simp [parseAll]
-  | k + 1, reg, input, acc, hlen => by
+    parseAll reg k input acc ≠ none
+  | 0, _, _, _ => by simp [parseAll]
+  | k + 1, reg, input, acc => by
     unfold parseAll
     split
     · simp
-    · have h := genbankParser_wp reg ⟨input, []⟩ trivial hlen
+    · have h := genbankParser_wp reg ⟨input, []⟩ trivial
       unfold WP at h
       rcases hrun : (genbankParser reg).run' ⟨input, []⟩ with ⟨r, s'⟩
       rw [hrun] at h
@@ -133,7 +132,7 @@ theorem parseAll_ne_none : ∀ k (reg : Registry) (input : Bytes) (acc : List Re
         · simp
         · exact absurd rfl h.1
       · dsimp only
-        exact parseAll_ne_none k reg' s'.rest (rec :: acc) (Nat.lt_of_le_of_lt h.2.2 hlen)
+        exact parseAll_ne_none k reg' s'.rest (rec :: acc)
 
 /-! ### internal consistency of an accepted record -/
 
